@@ -953,6 +953,25 @@ int main(int argc, char** argv) {
                     // unchanged as a number: -0 - step * 0 may come back as +0, which is the same value
                     if (!in_deck && memcmp(&v.second, &vars[v.first], 4) != 0 && !(v.second == vars[v.first])) absent_ok = false;
                 }
+                {   // the same problem through the overload that takes the Tree (it builds its own deck and evaluator)
+                    auto res2 = Solver::findRoot(tr, vars, pos, mask, gas);
+                    std::map<Tree::Id, float> fin2 = vars;
+                    for (auto& v : res2.second) fin2[v.first] = v.second;
+                    auto deck2 = std::make_shared<Deck>(tr);
+                    ArrayEvaluator chk2(deck2, fin2);
+                    float r2 = chk2.value(pos);
+                    // (a fresh deck may order min / max operands differently: NaN-valued points are not compared)
+                    bool same2 = std::isnan(r2) || std::isnan(res2.first) || memcmp(&r2, &res2.first, 4) == 0
+                                 || std::fabs(r2 - res2.first) <= 1e-4f * (1 + std::fabs(r2));
+                    bool masked2 = true, absent2 = true;
+                    for (auto& m : mask) if (res2.second.count(m)) masked2 = false;
+                    for (auto& v : res2.second) {
+                        bool in_deck = deck2->vars.right.find(v.first) != deck2->vars.right.end();
+                        if (!in_deck && memcmp(&v.second, &vars[v.first], 4) != 0 && !(v.second == vars[v.first])) absent2 = false;
+                    }
+                    out(std::string("ST residual=") + (same2 ? "1" : "0") + " masked=" + (masked2 ? "1" : "0") + " absent=" + (absent2 ? "1" : "0")
+                        + " returned=" + std::to_string(res2.second.size()));
+                }
                 out(std::string("SO residual=") + (same ? "1" : "0") + " recomputed=" + hex32(rr) + " masked=" + (masked_ok ? "1" : "0")
                     + " absent=" + (absent_ok ? "1" : "0") + " gradcalls=" + std::to_string(std::count_if(g_trace.begin(), g_trace.end(), [](const std::string& e) { return e[0] == 'G'; })));
             }
